@@ -24,6 +24,11 @@ pub fn run(a: &Args) -> Report {
     let n = a.n(3000, 60000);
     let seed = a.seed;
     let mut rep = parallel(n, a.threads, |i, rep| one_case(seed, i as u64, rep));
+    // streams long enough to take every counter through its carries (VMess: the 16-bit chunk counter wraps to 0
+    // after 65536 chunks, as v2ray-core does; Shadowsocks: the nonce carries into its third byte)
+    let longs: Vec<Proto> = vec![Proto::Vmess(3), Proto::Vmess(4), Proto::Ss(refimpl::ss::Method::Aes128Gcm), Proto::Ss(refimpl::ss::Method::B3ChaCha20Poly1305)];
+    let lr = parallel(longs.len(), a.threads, |i, rep| long_stream(seed, longs[i], rep));
+    rep.merge(lr);
     rep.extra.insert("trusted_base".into(), json!(["RustCrypto primitive crates (aes, aes-gcm, chacha20poly1305, blake3, md-5, sha1, sha2, sha3, hkdf, crc32fast)", "refimpl written from SIP004/SIP022/VMess/Trojan specifications; self-tested against embedded vectors"]));
     rep
 }
@@ -488,4 +493,22 @@ fn dgram_in_stream(cx: &mut Ctx, rng: &mut Rng, target: &Addr, now: u64, vopt: u
         }
         cx.rep.mon("dgram_real_server_to_ref_client_ok", 1);
     }
+}
+
+/// 66000 one-byte writes in each direction against the reference: counters must carry/wrap exactly as specified.
+fn long_stream(seed: u64, proto: Proto, rep: &mut Report) {
+    let mut rng = Rng::derive(seed, 0xC03A, 0);
+    let cfg = Cfg::random(&mut rng, proto, 0);
+    let target = Addr::V4([10, 0, 0, 1], 80);
+    let now = 1_700_000_000;
+    pin_clock(now);
+    let n = 66_000usize;
+    let c2s: Vec<Vec<u8>> = (0..n).map(|i| vec![(i % 251) as u8]).collect();
+    let case = json!({"seed": seed, "long_stream": proto.name(), "writes": n});
+    let mut cx = Ctx { rep, cfg: &cfg, case, nontrivial: false };
+    stream_real_client_ref_server(&mut cx, &mut rng, &target, now, &c2s, &c2s, 1);
+    stream_ref_client_real_server(&mut cx, &mut rng, &target, now, &c2s, &c2s, 0x1D, 1);
+    let nt = cx.nontrivial;
+    rep.case(&("long", proto.name()), nt);
+    rep.mon("long_streams", 1);
 }
